@@ -68,9 +68,12 @@ for k in ["tensor.(StdEng).Dot(y)", "tensor.Dot(y)"]:
     finding(["C09","C18"], "P2", k, "Dot(vector, matrix) does b.T(); defer b.UT() on its operand: a lazily transposed b comes back untransposed, and concurrent readers of b race",
             "writes AP.fin, AP.o, AP.shape, AP.strides, AP.Δ, Dense.AP, Dense.old, Dense.transposeWith", 13)
 for k in ["tensor.(*Dense).Outer(t)", "tensor.(*Dense).Outer(other)", "tensor.(StdEng).Outer(a)", "tensor.(StdEng).Outer(b)", "tensor.Outer(a)", "tensor.Outer(b)"]:
-    finding(["C09","C18"], "P2", k, "Outer into a column-major result temporarily reshapes both operands (and panics in BLAS)", "writes AP.fin, AP.shape, AP.strides", 14)
+    finding(["C09","C18"], "P2", k, "Outer into a column-major result temporarily reshapes both operands to (m,1) and (1,n): concurrent readers of the operands race on their shape (the error exits restore them since fix 9516b10)", "writes AP.fin, AP.shape, AP.strides", 14)
 for k in ["tensor.(*Dense).Concat(t)", "tensor.(*Dense).Hstack(t)", "tensor.(*Dense).Vstack(t)", "tensor.(StdEng).Concat(t)", "tensor.(StdEng).Concat(others)", "tensor.Concat(t)"]:
     finding(["C10","C18"], "P2", k, "denseConcat reshapes row-vector operands and clears a masked operand's mask (mt.SetMask(nil)); the restore is commented out", "writes AP.fin, AP.shape, AP.strides, Dense.mask", 16)
+
+finding(["C18"], "P2", "tensor.(*Dense).Norm(t)", "Norm (unordered / Frobenius / 2-norm of a vector) swaps a flat access pattern into its operand for the duration of a Dot call: eight goroutines calling t.Norm() on one shared tensor get wrong norms, data races, and leave t with shape (0)",
+        "writes AP.fin, AP.o, AP.shape, AP.strides, AP.Δ, Dense.AP, Dense.old, Dense.transposeWith", 48)
 
 finding(["C08","C07"], "EC", "tensor.(StdEng).prepReduce#Reshape1", "prepReduce drops the error of reuse.Reshape(newShape...): a reuse tensor that cannot be reshaped (non-contiguous view) is reduced into with its old shape", "dropped Reshape", 23)
 
@@ -108,6 +111,8 @@ finding(["C16"], "L3", "tensor.Copy@copyDense(%dt, %ts) ⊨ %ts.DataOrder().HasS
 finding(["C16"], "L4", "tensor.ToMat64@mat.NewDense( ?$t.DataOrder().IsColMajor()", "ToMat64 hands column-major storage to the row-major mat.Dense", "without a test of $t.DataOrder().IsColMajor()", 18)
 
 FIXED = [
+ {"property":"C19","commit":"0b6a800","rule":"RP","key":"tensor.(*Dense).Norm#AP($r)","what":"fixed: property=C19 0b6a800 Norm put the operand's access pattern back only on the success path: t.Norm(UnorderedNorm()) on a tensor whose engine has no Dot returned the error and left t with shape (0) (DESIGN finding 49)"},
+ {"property":"C09","commit":"9516b10","rule":"RP","key":"tensor.(StdEng).Outer#Reshape($a)","what":"fixed: property=C09 9516b10 Outer into a column-major result reshaped a to (m,1) and returned without undoing it when b could not be reshaped: Outer(a, b[0:6:2], WithReuse(colMajor)) returned an error and left a with shape (3,1) (DESIGN finding 50)"},
  {"property":"C16","commit":"af2eeb1","rule":"LD","key":"tensor.(StdEng).MatMul[26 of the 32 combinations of operand/result data order and lazy transposition]","what":"fixed: property=C16 af2eeb1 StdEng.MatMul took its BLAS transposition flags from the lazy-transpose state only and swapped the operands when both were column-major instead of when the result is: a column-major A times a row-major B (or any result whose order differs from the operands', or two column-major operands of which one is lazily transposed) multiplied the wrong matrices - silently for square operands, BLAS panic 'bad leading dimension' otherwise (DESIGN finding 47)"},
  {"property":"C09","commit":"af2eeb1","rule":"LD","key":"tensor.(StdEng).MatMul[A:col,A:lazyT,B:col,B:plain,C:col] and 25 more","what":"fixed: property=C09 af2eeb1 same defect seen from C09: MatMul(aColMajor.T(), bColMajor) computed with both flags applied to the wrong operand (DESIGN finding 47)"},
  {"property":"C15","commit":"08e30d7","rule":"E1","key":"tensor.(*Dense).Filled#1, tensor.(*Dense).FilledInplace#1","what":"fixed: property=C15 08e30d7 Filled/FilledInplace vector arm tested err != nil (nothing filled on success, nil dereference on failure) and sliced column vectors along the unit axis (DESIGN finding 39)"},
